@@ -308,7 +308,17 @@ pub fn run_history<Q: QueueApi>(
                 }
                 st.m = Model::from_snap(&s);
                 if matches!(reports.last().map(|r| r.viol.monitor), Some("M-ORDER") | Some("M-RET-extreme") | Some("M-DRAIN")) {
-                    // the order is broken: stop judging it until a rebuild
+                    // the order is broken. Observe its consequence for sorted consumption right away
+                    // (a different property), then stop judging the order until a rebuild
+                    if reports.last().map(|r| r.viol.monitor) != Some("M-DRAIN") {
+                        st.order_suspended = false;
+                        if let Ok(Err(v)) = catch_unwind(AssertUnwindSafe(|| st.exec(&Op::SortedCheck))) {
+                            let mut h = hist.clone();
+                            h.ops.push(Op::SortedCheck);
+                            reports.push(Report { viol: v, step, history: h });
+                        }
+                        stats.ev("M-DRAIN", 1);
+                    }
                     st.order_suspended = true;
                 }
                 snap = s;
